@@ -72,6 +72,8 @@ def declared_fields(pxd_body):
     out = {}
     for line in strip_doc(pxd_body).split("\n"):
         l = line.strip()
+        mp_ = re.fullmatch(r"cdef\s+double\s*\*\s*(\w+)", l)
+        if mp_: out[mp_.group(1)] = "listF"; continue
         m = re.fullmatch(r"cdef\s+(unsigned|int|double|long|np\.ndarray|vector\[int\]|PropensityType)\s+(\w+)", l)
         if m:
             ty, name = m.groups()
@@ -244,6 +246,16 @@ class Translator:
                     a, at = self.expr(ae, cx)
                     if wt == "listF":
                         if at != "listF": raise Refuse("pointer argument")
+                        args.append(a)
+                    else: args.append(coerce(a, at, wt))
+                return "(%s %s)" % (key, " ".join(args)), "F"
+            if isinstance(e.func, ast.Attribute) and isinstance(e.func.value, ast.Name) and e.func.value.id == "self" and e.func.attr in self.oracles:
+                key = e.func.attr; want = self.oracles[key]; args = []
+                if len(want) != len(e.args): raise Refuse("arity of %s" % key)
+                for wt, ae in zip(want, e.args):
+                    a, at = self.expr(ae, cx)
+                    if wt == "listF":
+                        if at != "listF": raise Refuse("pointer argument of %s" % key)
                         args.append(a)
                     else: args.append(coerce(a, at, wt))
                 return "(%s %s)" % (key, " ".join(args)), "F"
@@ -458,7 +470,7 @@ class Translator:
         return name
 
     def record(self, cls, with_M=False):
-        fs = self.fields(cls); coqty = {"F": "F", "Z": "Z", "nat": "nat", "listnat": "list nat", "mat": "list (list F)"}
+        fs = self.fields(cls); coqty = {"F": "F", "Z": "Z", "nat": "nat", "listnat": "list nat", "mat": "list (list F)", "listF": "list F"}
         names = sorted(fs)
         lines = ["Record %s_obj := mk_%s {" % (cls, cls)] + ["  %s : %s%s" % (self.getter(cls, f), coqty[fs[f]], ";" if i < len(names) - 1 else "") for i, f in enumerate(names)] + ["}."]
         for f in names:
